@@ -128,3 +128,17 @@ def run(ctx):
             "native build failures are not C01 violations (C04 decides them); they are counted under outcomes",
             "fastcc links pre-compiled objects of the repository's own runtime sources instead of recompiling them per program",
         ])
+
+
+def replay(ctx, path):
+    """re-run the stored program on both backends and report whether they still disagree"""
+    plain = build.get("plain")
+    files = sweep.replay_files(path)
+    with Scratch("c01r") as sc:
+        o = engines.observe(plain, sc.sub("p"), files)
+        kind, detail = outcome(o)
+        print("replay %s: %s %s" % (path, kind, detail or ""))
+        if kind == "differ":
+            print("VIOLATION property=C01 replay=%s" % path)
+            return 1
+        return 0 if kind == "equal" else 2
